@@ -62,7 +62,12 @@ def cases(rng, tier):
     for c in rng.sample(allc, min(len(allc), 300 if tier == "quick" else 3000)):
         if c["grant"] in ("client_credentials", "password", "authorization_code", "implicit"):
             warm.append(dict(c, warmup={"supported": rng.choice([None, ["a", "b", "c", "d", "z"], ["z"]]), "requested": rng.choice(["a", "z", "a b"])}))
-    return allc + warm
+    # the token request of the code / device flows carries a scope parameter of its own: the issued scope is still the approved one
+    tr = []
+    for c in allc:
+        if c["grant"] in ("authorization_code", "device_code") and len(tr) < (400 if tier == "quick" else 4000):
+            tr.append(dict(c, token_scope=rng.choice(["a", "a b", "z", "a b c d"])))
+    return allc + warm + tr
 
 
 def model_line(c):
@@ -152,7 +157,8 @@ def impl_one(c, framework=None):
         q = dict(parse_qsl(urlparse(loc).query, keep_blank_values=True)) if loc else dict(r.body)
         if "error" in q:
             return {"error": q["error"]}
-        r = ms.fw_call(srv, Req("POST", form=dict(grant_type="authorization_code", code=q["code"]), headers=hdr), "create_token_response")
+        ts = {"scope": c["token_scope"]} if c.get("token_scope") else {}
+        r = ms.fw_call(srv, Req("POST", form=dict(grant_type="authorization_code", code=q["code"], **ts), headers=hdr), "create_token_response")
         return _result(c, r.body)
     if grant == "device_code":
         r = ms.fw_call(srv, Req("POST", "https://as.example/device" + qs, form=dict(client_id="c1", **sc), headers=hdr), "create_endpoint_response", "device_authorization")
@@ -160,7 +166,8 @@ def impl_one(c, framework=None):
             return {"error": r.body["error"]}
         store.user_grants[r.body["user_code"]] = (1, True)
         r = ms.fw_call(srv, Req("POST", form=dict(grant_type="urn:ietf:params:oauth:grant-type:device_code",
-                                                            device_code=r.body["device_code"]), headers=hdr), "create_token_response")
+                                                            device_code=r.body["device_code"], **({"scope": c["token_scope"]} if c.get("token_scope") else {})), headers=hdr),
+                       "create_token_response")
         return _result(c, r.body)
     if grant == "refresh_token":
         store.tokens.append(Token(_store=store, access_token="old-at", refresh_token="old-rt", client_id="c1", user_id=1,
